@@ -23,6 +23,20 @@ ImagesSmall == {
     {A(1, 10, <<1, 2>>),          A(1, 12, <<3, 4>>)},
     {A(3, 5, <<1, 2>>),           A(4, 5, <<3, 4>>)} }
 
+\* unit id -> real length.  ImagesSmall: area 1 = units 1, 2; area 2 = units 3, 4.
+\* ImagesFull: area 1 = units 1..3; area 2 = units 4..6.
+UnitLensSmall == [ small           |-> <<1, 1, 1, 1>>,
+                   page_multiple   |-> <<4096, 8192, 256, 3840>>,      \* 12288 and 4096
+                   zone_multiple   |-> <<32768, 32768, 49152, 16384>>, \* 65536 and 65536
+                   one_below       |-> <<4000, 95, 65000, 535>>,       \* 4095 and 65535
+                   one_above       |-> <<4096, 1, 65536, 1>> ]         \* 4097 and 65537
+UnitLensFull  == [ small           |-> <<1, 1, 1, 1, 1, 1>>,
+                   page_multiple   |-> <<4096, 4096, 4096, 2048, 4096, 2048>>,      \* 12288 and 8192
+                   zone_multiple   |-> <<32768, 16384, 16384, 16384, 16384, 32768>>,
+                   one_below       |-> <<2048, 1024, 1023, 32768, 16384, 16383>>,   \* 4095 and 65535
+                   one_above       |-> <<2048, 2048, 1, 32768, 32768, 1>> ]         \* 4097 and 65537
+AllSizes == {"small", "page_multiple", "zone_multiple", "one_below", "one_above"}
+
 \* image 3 is another file with the bytes of image 1
 Contents3 == <<1, 2, 1>>
 Contents4 == <<1, 2, 1, 3>>
